@@ -326,6 +326,9 @@ def laws_dt(run, lex, acc):
     far = FAR[:cx.n(2, len(FAR))]
     lines = ["cmp %s %s %s" % (DT, hexs(a), hexs(b)) for a, b in far]
     run.impl_only(lines, count_kind="val:dt:law:sort-far")
+    if all(run.get(l)[0] == "ok" for l in lines):
+        # defined on this tree (repaired, or no sanitizer): these pairs and more of them belong to the correspondence, too
+        run.diff(["cmp %s %s %s" % (DT, hexs(a), hexs(b)) for a, b in FAR] + ["cmp %s %s %s" % (DT, hexs(b), hexs(a)) for a, b in FAR])
     for (a, b), l in zip(far, lines):
         r = run.get(l)
         if r[0] != "ok":
